@@ -245,4 +245,10 @@ def obligations():  # noqa: F811
     # a value computed by a hoisted call reaches the expression through its temporary: temporaries of one statement are distinct
     from tx.p_c05 import temp_sequences
     from tx.p_c02 import condition_coercion
-    return _c01_base() + literal_values() + temp_sequences() + condition_coercion() + int_helper() + helpers_in_expressions()
+    # the value of a string literal is its text, blanks included (shared with C08); the kind of an expression decides the temporary
+    # that carries its value (shared with C14)
+    from tx.p_c05 import share
+    from tx.p_c08 import content
+    from tx.p_c14 import rule_kinds
+    return (_c01_base() + literal_values() + temp_sequences() + condition_coercion() + int_helper() + helpers_in_expressions()
+            + share("literal-text/", content()) + share("kind/", rule_kinds()))
